@@ -115,7 +115,9 @@ fn run_inner(rng: &mut Rng, cfg: &Cfg, tag: u64, rep: &mut Report) -> Outcome {
                 let data: &[u8] = if cfg.guard {
                     let side = if rng.chance(3, 4) { Side::Right } else { Side::Left };
                     let mut a = Arena::with_data(src, side);
-                    a.set_readonly(true);
+                    if rng.chance(1, 32) {
+                        a.set_readonly(true); // (mprotect is very slow under concurrency in this VM)
+                    }
                     arena = a;
                     arena.as_slice()
                 } else {
